@@ -163,6 +163,7 @@ class Interp:
         self.trips = []         # (guard, trip term) of every counted DO loop
         self.int_divs = []      # (numerator, denominator) of every integer division evaluated
         self.concrete_inputs = {}   # storage key / extent name -> concrete z3 value (replay mode)
+        self.eguard = None      # element guard while an array-valued expression's element is evaluated
         self.gcur = None        # guard of the expression being evaluated (for conformance hypotheses)
         self._collect()
 
@@ -320,7 +321,16 @@ class Interp:
                     if str(c).strip().startswith("!$"):
                         self.comment_handler(self, str(c), frame, guard)
             if isinstance(part, F.Execution_Part):
-                self.exec_block(part.content, frame, guard)
+                if self.depth == 0 and self.trace_on:
+                    # top-level statement boundaries in the event trace (for region queries)
+                    self.top_marks = []
+                    for st in part.content:
+                        if not isinstance(st, F.Comment):
+                            self.top_marks.append(len(self.trace))
+                        self.exec_stmt(st, frame, guard)
+                    self.top_marks.append(len(self.trace))
+                else:
+                    self.exec_block(part.content, frame, guard)
 
     # ------------------------------------------------------------ declarations
     def _declare(self, node, frame, actuals, top, guard):
@@ -883,7 +893,12 @@ class Interp:
         n = [self._unroll_extent(e, g) for e in av.extents]
         cache = {}
         for ks in _ranges(n):
-            cache[ks] = av.elem([z3.IntVal(k) for k in ks])
+            saved = self.eguard
+            self.eguard = AND(*[simp(z3.IntVal(k) < e) for k, e in zip(ks, av.extents)])
+            try:
+                cache[ks] = av.elem([z3.IntVal(k) for k in ks])
+            finally:
+                self.eguard = saved
         exts = av.extents
 
         def elem(ks, cache=cache):
@@ -943,10 +958,16 @@ class Interp:
             eg = AND(g, *[simp(kt[d] < exts[d]) for d in range(len(ks))])
             if z3.is_false(eg):
                 continue
-            if mask is not None:
-                eg = AND(eg, mask.elem(kt))
-            self.gcur = eg
-            v = val.elem(kt)
+            saved = self.eguard
+            self.eguard = AND(*[simp(kt[d] < exts[d]) for d in range(len(ks))])
+            try:
+                if mask is not None:
+                    eg = AND(eg, mask.elem(kt))
+                    self.eguard = AND(self.eguard, mask.elem(kt))
+                self.gcur = eg
+                v = val.elem(kt)
+            finally:
+                self.eguard = saved
             pending.append((smap(kt), self._conv(v, tname), eg))
         for sidx, v, eg in pending:
             self.write(key, [simp(i) for i in sidx], v, eg)
@@ -1140,7 +1161,8 @@ class Interp:
         if lref[0] == "struct":
             raise Unsupported("whole structure value")
         _, key, exts, smap, tname = lref
-        return ArrVal(exts, lambda ks: self.read(key, [simp(i) for i in smap(ks)], g), tname)
+        return ArrVal(exts, lambda ks: self.read(key, [simp(i) for i in smap(ks)],
+                                                 g if self.eguard is None else AND(g, self.eguard)), tname)
 
     def ev(self, node, frame, g):
         self.gcur = g
@@ -1360,7 +1382,12 @@ class Interp:
             tot = None
             for k in range(n):
                 kt = [z3.IntVal(k)]
-                x, y = numeric_pair(a.elem(kt), b.elem(kt))
+                saved = self.eguard
+                self.eguard = simp(kt[0] < a.extents[0])
+                try:
+                    x, y = numeric_pair(a.elem(kt), b.elem(kt))
+                finally:
+                    self.eguard = saved
                 term = ITE(simp(kt[0] < a.extents[0]), x * y, _zero(x.sort()))
                 tot = term if tot is None else tot + term
             return tot if tot is not None else z3.RealVal(0)
@@ -1498,10 +1525,16 @@ class Interp:
                 kt = [k if z3.is_expr(k) else z3.IntVal(k) for k in ks]
                 inr = AND(*[simp(kt[x] < a.extents[x]) for x in range(a.rank)
                             if fixed is None or x == dim - 1])
-                if mask is not None:
-                    m = mask.elem(kt) if isinstance(mask, ArrVal) else mask
-                    inr = AND(inr, m)
-                x = a.elem(kt)
+                saved = self.eguard
+                self.eguard = inr if saved is None else AND(saved, inr)
+                try:
+                    if mask is not None:
+                        m = mask.elem(kt) if isinstance(mask, ArrVal) else mask
+                        inr = AND(inr, m)
+                        self.eguard = inr if saved is None else AND(saved, inr)
+                    x = a.elem(kt)
+                finally:
+                    self.eguard = saved
                 acc = self._red_step(up, acc, x, inr)
             if acc is None:
                 acc = self._red_init(up, None)
@@ -1565,7 +1598,12 @@ class Interp:
                 tot = None
                 for k in range(n):
                     kt = z3.IntVal(k)
-                    x, y = numeric_pair(a.elem([ks[0], kt]), b.elem([kt, ks[1]]))
+                    saved = self.eguard
+                    self.eguard = simp(kt < inner) if saved is None else AND(saved, simp(kt < inner))
+                    try:
+                        x, y = numeric_pair(a.elem([ks[0], kt]), b.elem([kt, ks[1]]))
+                    finally:
+                        self.eguard = saved
                     t = ITE(simp(kt < inner), x * y, _zero(x.sort()))
                     tot = t if tot is None else tot + t
                 return tot if tot is not None else z3.RealVal(0)
@@ -1579,7 +1617,12 @@ class Interp:
                 tot = None
                 for k in range(n):
                     kt = z3.IntVal(k)
-                    x, y = numeric_pair(a.elem([ks[0], kt]), b.elem([kt]))
+                    saved = self.eguard
+                    self.eguard = simp(kt < inner) if saved is None else AND(saved, simp(kt < inner))
+                    try:
+                        x, y = numeric_pair(a.elem([ks[0], kt]), b.elem([kt]))
+                    finally:
+                        self.eguard = saved
                     t = ITE(simp(kt < inner), x * y, _zero(x.sort()))
                     tot = t if tot is None else tot + t
                 return tot if tot is not None else z3.RealVal(0)
@@ -1725,7 +1768,12 @@ class Interp:
                     ks = tuple(reversed(ks))
                     kt = [z3.IntVal(k) for k in ks]
                     eg = AND(g, *[simp(kt[d] < v.extents[d]) for d in range(len(ks))])
-                    self.emit(v.elem(kt), eg)
+                    saved = self.eguard
+                    self.eguard = AND(*[simp(kt[d] < v.extents[d]) for d in range(len(ks))])
+                    try:
+                        self.emit(v.elem(kt), eg)
+                    finally:
+                        self.eguard = saved
             else:
                 self.emit(v, g)
 
